@@ -92,6 +92,7 @@ COST_SAMPLES = [
     ('multicommodity_take', 'multicommodity', dict(T=3, take=(0, 3), gridv='quarter_min')),
     ('plant_fuel', 'plant', dict(T=3, fuel=True, mr=2, gridv='day_d_cet_dst')),
     ('plant_min_load_costs', 'plant_minload', dict(T=2, fuel=False, ramps=False)),
+    ('scaled_periodic_contract', 'scaled', dict(T=5, base='periodic_contract')),
     ('chp', 'plant', dict(T=2, fuel=True, heat=True, ramp=True)),
     ('coarse_contract', 'coarse', dict(T=4, kind='contract', ec=True)),
     ('coarse_transport', 'coarse', dict(T=4, kind='transport', eff=0.5)),
@@ -111,7 +112,7 @@ COST_SAMPLES = [
     ('periodic_transport', 'periodic', dict(T=4, kind='transport', eff=0.5)),
     ('structured_two_internal', 'structured', dict(T=2, two_internal=True)),
 ]
-COST_QUICK = 21
+COST_QUICK = 22
 
 
 def run_costs(rec, seed, shape, kw):
